@@ -4,6 +4,7 @@ BOUNDS = {'stack step': 'one line of each kind (begin known / begin unknown / en
           'files': 'every file of 0..3 lines and a 24th of the 4-line files (quick) / every file of 0..4 lines and an eighth of the 5-line files (thorough) over {comment, begin one, begin two, begin zz, end, text} after the magic line, through fopen/fgets/fclose stubs',
           'include': 'a main file of 0..2 lines with one %include at every position, included file of 0..2 lines (main+included <= 2 lines: all; 3 lines: an eighth, 4 lines: a 72nd in quick; all in thorough)',
           'outside': 'nested %include (the file-stack step is checked in C11), %preproc, backquotes'}
+SAMPLED = {'quick': '4-line files (a 24th) and %include scenarios of 3..4 lines are samples; files of 0..3 lines, includes of 0..2 lines and all step classes are complete', 'thorough': '5-line files are a sample (an eighth); everything else is complete'}
 RULE = 'C09 shapes: (capacity class, line kind) with symbolic depth; (number of lines, line-kind code) for whole files.'
 ASSUMPTIONS = ['handlers are harness functions that log (context, BEGIN/END/text, state in) and return a fresh symbolic state',
                'value expansion of ordinary lines is the real spifconf_shell_expand (C10 owns its correctness)']
